@@ -12,6 +12,8 @@ import (
 	"pgregory.net/rapid"
 
 	"github.com/bufbuild/protocompile/wellknownimports"
+
+	"verifharness/sim"
 )
 
 // PFile is one generated proto source file. Imports is what the text says; it
@@ -482,6 +484,20 @@ func genTape(t *rapid.T, maxLen int) []uint16 {
 		tape[i] = uint16(rapid.IntRange(0, 7).Draw(t, "pick"))
 	}
 	return tape
+}
+
+// genPCT draws, for one run in four, a priority schedule with 1-3 priority
+// change points instead of a tape-driven one.
+func genPCT(t *rapid.T, horizon int) *sim.PCT {
+	if rapid.IntRange(0, 3).Draw(t, "pct") != 0 {
+		return nil
+	}
+	p := &sim.PCT{Seed: uint32(rapid.IntRange(1, 1<<30).Draw(t, "pctSeed"))}
+	n := rapid.IntRange(1, 3).Draw(t, "pctDepth")
+	for i := 0; i < n; i++ {
+		p.ChangeAt = append(p.ChangeAt, rapid.IntRange(0, horizon).Draw(t, "pctChange"))
+	}
+	return p
 }
 
 // genDisabled draws the subset of optional hook points that are switched off
